@@ -200,10 +200,14 @@ func c12Case(env *Env, tape *sim.Tape) *CaseOut {
 	var sv *sim.Violation
 	var st RunStats
 	scheduled := !(entry == EBytes || entry == EString)
+	var firstOut []byte
+	var firstOp *Op
 	if repeat {
 		// first use of the registry: the same call on the same data with fresh doubles; its
-		// result is judged by the same oracle through the second use below
+		// result is judged by the same oracle through the second use below, and it must
+		// still read the same after the second call (results must not alias reused buffers)
 		first := *op
+		firstOp = &first
 		first.W, first.R = sim.NewSimWriter(nil), sim.NewSimReader(nil, data)
 		first.R.Chunks, first.R.EOFWithData = op.R.Chunks, op.R.EOFWithData
 		if scheduled {
@@ -211,6 +215,7 @@ func c12Case(env *Env, tape *sim.Tape) *CaseOut {
 		} else {
 			first.Exec(nil, m)
 		}
+		firstOut = append([]byte(nil), first.Out...)
 		out.stat("probe_second_use_of_registry", 1)
 	}
 	if scheduled {
@@ -269,6 +274,9 @@ func c12Case(env *Env, tape *sim.Tape) *CaseOut {
 	}
 	if sv != nil {
 		return fail(sv.Kind, "the run did not complete: "+sv.Detail)
+	}
+	if firstOp != nil && (entry == EBytes || entry == EString) && !bytes.Equal(firstOp.Out, firstOut) {
+		return fail("result-changed-after-later-call", fmt.Sprintf("the slice returned by the first %s call read %q right after the call and %q after a second call on the same registry", entryNames[entry], corpus.Short(firstOut, 60), corpus.Short(firstOp.Out, 60)))
 	}
 	if !op.Finished {
 		return fail("deadlock", "the entry point never returned")
